@@ -488,11 +488,12 @@ prop('C20', wip=True,
 prop('C05', wip=True,
      builds=[dict(crate='vm', filters=['c05_'])],
      default=dict(mem=12, timeout={'quick': 1200, 'thorough': 2400}, cbmc_extra=FS2K, unwindset=['memcmp.0:200']),
-     min_harnesses={'quick': 8, 'thorough': 8},
+     overrides=[(r'c05_gtf_(general|inputs)$', dict(tier='thorough', attempt=True, mem=24, timeout=2400))],
+     min_harnesses={'quick': 6, 'thorough': 8},
      functions_encoded=['<op::GM as Execute>::execute, Interpreter::metadata, interpreter::metadata::metadata', 'Interpreter::get_transaction_field, GTFInput::get_transaction_field',
                         'GMArgs::try_from, GTFArgs::try_from', 'init_inner placing the transaction bytes at tx_offset and computing the owner pointer: harnesses c31_init_* (run with C31)'],
      bounds=['GM: all 2^18 immediates, all destination registers, Script / Call / predicate contexts, with and without a call frame (symbolic saved $fp), symbolic chain id / gas price / tx offset / owner pointer',
-             'GTF: a Script with one coin-predicate, one contract and one message-data-predicate input, a coin and a contract output, one witness, tip + max-fee policies, every scalar and byte symbolic; 90 selector/index combinations incl. wrong-family, absent-index, other-kind and all undefined selectors'],
+             'GTF (quick): a Create transaction with one coin-predicate input, one contract-created output, one storage slot and one witness: kind, create, input / output / witness pointer selectors and the script / upload / blob / upgrade selectors of other kinds', 'GTF (thorough-tier attempts, no verdict in 1200 s so far): a Script with one coin-predicate, one contract and one message-data-predicate input, a coin and a contract output, one witness: 90 selector/index combinations incl. wrong-family, absent-index, other-kind and all undefined selectors'],
      assumptions=[VM_STUBS_NOTE, 'selector numbers are the specification literals, not the GMArgs/GTFArgs enums'],
      out_of_claim=['GTF on Upload / Upgrade / Blob transactions (kind-specific selectors); Create is covered for the kind / create / script-foreign selectors only', 'other input/output variants and shapes', 'gas charge of GTF (symbolic-schedule charge is asserted for GM)'],
      level_text='Bounded model checking of the introspection instructions against a specification table: value selectors return the value of the executed transaction, pointer selectors point at exactly the canonical bytes of the field inside the encoded transaction, wrong-family / absent / other-kind / undefined selectors panic as specified; GM returns the configured values in every context.',
